@@ -24,6 +24,12 @@ def obligations(tier):
                        'argument equal to the marker value', 'more entries queued than the ring holds (wrap-around)']))
     obs.append(seq_ob('lifecycle', 2, 3, 8, 'register, defer, {barrier | barrier_thread | nothing}, unregister, register again, defer x2, unregister',
                       ['rcu_defer_barrier() before the first unregister']))
+    o = seq_ob('reclaimer_pass', 3, 5 if q else 6, 4,
+               'queuing thread operations (defer_rcu / rcu_defer_barrier_thread) interleaved at operation granularity with passes of the background reclaimer '
+               '(wait_defer(); rcu_defer_barrier(), the body of thr_defer): a pass started while calls are pending never parks on its futex and runs all of them',
+               ['two reclaimer passes with pending calls', 'calls pending after an earlier reclaimer pass (last_head behind head)'])
+    o['stub_map'] = dict(STUBS, pthread_exit='my_exit')
+    obs.append(o)
     from props.common import conc
     if not q:          # ~20 min / 8 GB: thorough tier only
       obs += conc('defer_barrier_vs_queuer', 'c13_defer_conc.c', [dict(fn='ta', slot=1), 'tb', 'r1', 'r2'], 3,
@@ -39,5 +45,5 @@ EXPLANATION = 'C13: defer_rcu'
 OUTSIDE = 'sequences longer than the stated number of steps; ring sizes other than the hook-reduced one (the arithmetic is mask-based and size-independent)'
 ASSUMPTIONS = ['synchronize_rcu replaced by a ghost grace-period counter (contract of C01)', 'DEFER_QUEUE_SIZE reduced through the URCU_VERIF hook']
 LEVEL_TEXT = ('Bounded model checking of the real defer_rcu / rcu_defer_barrier(_thread) / register / unregister code (mb flavor TU) for every function and argument bit pattern and '
-              'every operation sequence within the step bound (sequential), plus all interleavings of queuing thread, reclaimer thread and a barrier caller within R rounds.')
+              'every operation sequence within the step bound (sequential, including passes of the background reclaimer - wait_defer(); rcu_defer_barrier() - between operations), plus all interleavings of queuing thread, reclaimer thread and a barrier caller within R rounds.')
 LEVEL_NOTE = 'Trusted: clang-14 lowering, irseq translator, asm table, futex/mutex stubs, C01 contract for synchronize_rcu, CBMC/MiniSat.'
